@@ -539,6 +539,24 @@ func checkC15(c *Ctx) {
 		}
 		c.Oblige("C15.overlap", ShortName(dd), c.Prog.FuncPos(dd), found, "overlapping blocks (prev.end() > next.begin) are not rejected with an error")
 	}
+	// --- C15.norm: Store re-normalises the block list as a whole
+	if st := anchor(c, "(*"+pkgMemory+".Bytes).Store"); st != nil {
+		c.Rule("C15.norm", "after a write Bytes.Store normalises the whole block list: every dedupBlocks it reaches is given all blocks, never a part of the list (one write can insert several blocks, each of which may touch its neighbours)")
+		n := 0
+		for _, s := range DeepCalls(st, InModulePkg(st)) {
+			call, ok := s.Instr.(*ssa.Call)
+			if !ok || call.Call.StaticCallee() == nil || NameOf(Origin(call.Call.StaticCallee())) != "dedupBlocks" {
+				continue
+			}
+			n++
+			partial := DependsOnVia(s.Chain, call.Call.Args[0], InModulePkg(st), func(v ssa.Value) bool {
+				sl, isSl := v.(*ssa.Slice)
+				return isSl && (sl.Low != nil || sl.High != nil)
+			}, nil)
+			c.Oblige("C15.norm", fmt.Sprintf("%s/dedupBlocks#%d", ShortName(s.Fn), n), c.Prog.Pos(call.Pos()), !partial, "only a part of the block list is normalised after the write: blocks outside it that became adjacent stay unmerged and reads across them fail")
+		}
+		c.RequireCount("C15.norm dedupBlocks reached from Bytes.Store", n, 1)
+	}
 	if nb := anchor(c, pkgMemory+".NewBytes"); nb != nil {
 		n := checkErrflow(c, "C15.overlap", []string{pkgMemory}, nil)
 		c.RequireCount("C15.overlap error-returning calls in package memory", n, 1)
